@@ -85,6 +85,7 @@ class VecDomain(ParamsMixin, Domain):
         b['LA.norm'] = self.b_norm
         b['np.zeros'] = self.b_zeros
         b['np.max'] = lambda eng, n, a, k, st: self._minmax(a, st, True)
+        b['np.maximum'] = lambda eng, n, a, k, st: self._minmax(a, st, True) if len(a) == 2 and all(isz(x) and isnum(x) for x in a) else UNK
         b['float'] = self.b_float_v
         b['list'] = self.b_list_v
         b['np.isfinite'] = lambda eng, n, a, k, st: ElemTest('finite', a[0]) if a and self.isv(a[0]) else UNK
@@ -299,7 +300,7 @@ class VecDomain(ParamsMixin, Domain):
         return UNK
 
     def spec_call(self, eng, name, e, st):
-        fs = {'ALLFINITE': FINV, 'MVF': MVF, 'HU': HUf, 'RSV': RSV, 'norm': norm_f, 'vsub': vsub_f, 'vadd': vadd_f, 'PROJ': lambda l, i, w: PROJ(l.tok if isinstance(l, PListV) else l, i, w),
+        fs = {'DOT': DOT, 'ALLFINITE': FINV, 'MVF': MVF, 'HU': HUf, 'RSV': RSV, 'norm': norm_f, 'vsub': vsub_f, 'vadd': vadd_f, 'PROJ': lambda l, i, w: PROJ(l.tok if isinstance(l, PListV) else l, i, w),
               'INC': lambda l, i, w: INC(l.tok if isinstance(l, PListV) else l, i, w)}
         if name in fs:
             args = [eng.ev(a, st) for a in e.args]
